@@ -24,11 +24,7 @@ impl SDJWTDisclosure  {
 
         #[cfg(feature = "mock_salts")]
         let salt = {
-            value_str = value_str
-                .replace(":[", ": [")
-                .replace(',', ", ")
-                .replace("\":", "\": ")
-                .replace("\":  ", "\": ");
+            value_str = python_style_json(&value_str);
             generate_salt_mock()
         };
 
@@ -78,6 +74,41 @@ fn escape_unicode_chars(s: &str) -> String {
     }
 
     result
+}
+
+/// Re-serializes JSON text the way Python's `json.dumps` spaces it (`, ` and `: ` separators).
+/// Only the separators between tokens change; strings (names and values) are left untouched.
+#[cfg(feature = "mock_salts")]
+fn python_style_json(json: &str) -> String {
+    use serde::Serialize;
+    use std::io;
+
+    struct PythonFormatter;
+
+    impl serde_json::ser::Formatter for PythonFormatter {
+        fn begin_array_value<W: ?Sized + io::Write>(&mut self, w: &mut W, first: bool) -> io::Result<()> {
+            if first { Ok(()) } else { w.write_all(b", ") }
+        }
+
+        fn begin_object_key<W: ?Sized + io::Write>(&mut self, w: &mut W, first: bool) -> io::Result<()> {
+            if first { Ok(()) } else { w.write_all(b", ") }
+        }
+
+        fn begin_object_value<W: ?Sized + io::Write>(&mut self, w: &mut W) -> io::Result<()> {
+            w.write_all(b": ")
+        }
+    }
+
+    let value: Value = match serde_json::from_str(json) {
+        Ok(value) => value,
+        Err(_) => return json.to_owned(), // not JSON (plain text): nothing to re-space
+    };
+    let mut out = Vec::new();
+    let mut serializer = serde_json::Serializer::with_formatter(&mut out, PythonFormatter);
+    match value.serialize(&mut serializer) {
+        Ok(()) => String::from_utf8(out).unwrap_or_else(|_| json.to_owned()),
+        Err(_) => json.to_owned(),
+    }
 }
 
 fn escape_json(s: &str) -> String {
